@@ -132,3 +132,10 @@ func init() {
 	addMutant(mutant{Name: "wal/tail-truncation-counter-uses-writer-lastindex", Fire: []string{"VF-10"},
 		Edits: []edit{{"wal.go", "			if seg.SealTime.IsZero() {\n				maxIdx = newState.lastIndex()\n			}", "			if seg.SealTime.IsZero() {\n				maxIdx = newState.tail.LastIndex()\n			}"}}})
 }
+
+func init() {
+	addMutant(mutant{Name: "silent/rename-verifier-channel-and-callback", Silent: true,
+		Renames: map[string]string{"verifyCh": "reports", "reportFn": "onReport", "checkpointFn": "isCheckpoint"}})
+	addMutant(mutant{Name: "silent/rename-codec-helpers", Silent: true,
+		Renames: map[string]string{"encoder": "fieldWriter", "decoder": "fieldReader", "scratch": "tmp"}})
+}
